@@ -336,3 +336,62 @@ Proof.
   - cbn [nth]. rewrite (herm_loop_eval y (S n) 0 (- y) 1 n) by (try lia; rewrite ?hpoly_1, ?hpoly_0; cbn [peval]; ring).
     replace (2 + n)%nat with (S (S n)) by lia. reflexivity.
 Qed.
+
+(* ---------------------------------------------------------------- the normalised recurrence of the code
+   p_0 = 1, p_1 = -y, p_n = -(y p_{n-1} + s_{n-1} p_{n-2}) / s_n   (s_n stands for sqrt(n), s_1 = 1)
+   is the recurrence with the roots cleared, divided by s_1 ... s_n: for ANY non-zero s,
+   p_n . (s_1 ... s_n) = g_n  with  g_n = -(y g_{n-1} + s_{n-1}^2 g_{n-2}).
+   With s_k^2 = k the g_n are the h_n above and (s_1 ... s_n)^2 = n!. *)
+Fixpoint nprod (s : nat -> Q) (n : nat) : Q := match n with O => 1 | S k => s (S k) * nprod s k end.
+
+Lemma herm_loop_scaled s y : (forall k, ~ s k == 0) ->
+  forall cnt ih pm1 pm2 qm1 qm2 j, (j < cnt)%nat ->
+  pm1 * nprod s (S ih) == qm1 -> pm2 * nprod s ih == qm2 ->
+  nth j (herm_loop s s y cnt (S (S ih)) pm1 pm2) 0 * nprod s (S (S ih) + j) ==
+  nth j (herm_loop (fun k => s k * s k) (fun _ => 1) y cnt (S (S ih)) qm1 qm2) 0.
+Proof.
+  intro Hs. induction cnt as [|cnt IH]; intros ih pm1 pm2 qm1 qm2 j Hj H1 H2; [lia|].
+  cbn [herm_loop]. replace (S (S ih) - 1)%nat with (S ih) by lia.
+  assert (E : Qred (- (y * pm1 + s (S ih) * pm2) / s (S (S ih))) * nprod s (S (S ih)) ==
+              Qred (- (y * qm1 + s (S ih) * s (S ih) * qm2) / 1)).
+  { rewrite !Qred_correct, <- H1, <- H2. cbn [nprod]. field. apply Hs. }
+  destruct j as [|j]; cbn [nth].
+  - rewrite Nat.add_0_r. exact E.
+  - replace (S (S ih) + S j)%nat with (S (S (S ih)) + j)%nat by lia.
+    apply (IH (S ih)); [lia|exact E|exact H1].
+Qed.
+
+Lemma herm_gen_scaled s y n : s 1%nat == 1 -> (forall k, ~ s k == 0) ->
+  nth n (herm_gen s s y (S n)) 0 * nprod s n == nth n (herm_gen (fun k => s k * s k) (fun _ => 1) y (S n)) 0.
+Proof.
+  intros H1 Hs. unfold herm_gen. destruct n as [|[|n]].
+  - cbn [nth nprod]. ring.
+  - cbn [nth nprod]. rewrite H1. ring.
+  - cbn [nth]. replace (S (S n)) with (2 + n)%nat by lia.
+    apply (herm_loop_scaled s y Hs (S n) 0 (- y) 1 (- y) 1 n); [lia| |]; cbn [nprod]; rewrite ?H1; ring.
+Qed.
+
+(* the recurrence depends on its coefficients only through == *)
+Lemma herm_loop_ext a a' b b' y : (forall k, a k == a' k) -> (forall k, b k == b' k) ->
+  forall cnt ih pm1 pm2 qm1 qm2 j, pm1 == qm1 -> pm2 == qm2 ->
+  nth j (herm_loop a b y cnt ih pm1 pm2) 0 == nth j (herm_loop a' b' y cnt ih qm1 qm2) 0.
+Proof.
+  intros Ha Hb. induction cnt as [|cnt IH]; intros ih pm1 pm2 qm1 qm2 j H1 H2; cbn [herm_loop]; [reflexivity|].
+  assert (E : Qred (- (y * pm1 + a (ih - 1)%nat * pm2) / b ih) == Qred (- (y * qm1 + a' (ih - 1)%nat * qm2) / b' ih)).
+  { rewrite !Qred_correct, H1, H2, Ha, Hb. reflexivity. }
+  destruct j as [|j]; cbn [nth]; [exact E|]. apply IH; assumption.
+Qed.
+
+(* if the s_k are square roots (s_k^2 = k) the cleared recurrence is h_n and the scale is sqrt(n!) *)
+Lemma nprod_sq s n : (forall k, s k * s k == natQ k) -> nprod s n * nprod s n == factQ n.
+Proof.
+  intro H. induction n as [|n IH]; cbn [nprod factQ]; [ring|].
+  rewrite <- IH, <- (H (S n)). ring.
+Qed.
+Lemma herm_gen_sqrt s y n : (forall k, s k * s k == natQ k) ->
+  nth n (herm_gen (fun k => s k * s k) (fun _ => 1) y (S n)) 0 == peval (hpoly n) y.
+Proof.
+  intro H. rewrite <- herm_unnorm_eval. unfold herm_unnorm, herm_gen.
+  destruct n as [|[|n]]; cbn [nth]; try reflexivity.
+  apply herm_loop_ext; try reflexivity; try exact H; intro; reflexivity.
+Qed.
